@@ -18,17 +18,19 @@ pub struct Cfg {
     pub populate: bool,
     /// pass keys / values / names as owned `Vec<u8>` instead of slices
     pub owned_args: bool,
+    /// OpenOptions::direct_writes (O_DIRECT on the database file)
+    pub direct: bool,
 }
 
 impl Default for Cfg {
     fn default() -> Self {
-        Cfg { pagesize: 1024, num_pages: 64, strict: false, populate: false, owned_args: false }
+        Cfg { pagesize: 1024, num_pages: 64, strict: false, populate: false, owned_args: false, direct: false }
     }
 }
 
 impl Cfg {
     pub fn to_json(&self) -> Value {
-        json!({"pagesize": self.pagesize, "num_pages": self.num_pages, "strict": self.strict, "populate": self.populate, "owned_args": self.owned_args})
+        json!({"pagesize": self.pagesize, "num_pages": self.num_pages, "strict": self.strict, "populate": self.populate, "owned_args": self.owned_args, "direct_writes": self.direct})
     }
     pub fn from_json(v: &Value) -> Cfg {
         Cfg {
@@ -37,10 +39,11 @@ impl Cfg {
             strict: v["strict"].as_bool().unwrap_or(false),
             populate: v["populate"].as_bool().unwrap_or(false),
             owned_args: v["owned_args"].as_bool().unwrap_or(false),
+            direct: v["direct_writes"].as_bool().unwrap_or(false),
         }
     }
     pub fn open(&self, path: &str) -> Result<DB, jammdb::Error> {
-        OpenOptions::new().pagesize(self.pagesize).num_pages(self.num_pages).strict_mode(self.strict).mmap_populate(self.populate).open(path)
+        OpenOptions::new().pagesize(self.pagesize).num_pages(self.num_pages).strict_mode(self.strict).mmap_populate(self.populate).direct_writes(self.direct).open(path)
     }
 }
 
